@@ -138,7 +138,7 @@ use crate::work::{Args, CaseOut, Family, hash_str, panic_sig};
 const GARBAGE: u64 = u64::MAX;
 
 /// Element type of the lists under test; elements are made from small unique ids.
-pub trait SElem: Value<Transformed: PartialEq> + Clone + Send + Sync + 'static {
+pub trait SElem: Value<Transformed: PartialEq> + PartialEq + Clone + Send + Sync + 'static {
     const NAME: &'static str;
     const ROTO: &'static str;
     /// clone / == / drop of an element report to the scheduler
